@@ -22,19 +22,23 @@ fn one(sub: &str, recs: &[Vec<u8>], empty_file: bool, k: usize, w: usize) -> Opt
     let n = if empty_file { 0 } else { recs.len() };
     let (i2, o2, d2) = (inp.clone(), out.clone(), outd.clone());
     let sub2 = sub.to_string();
-    let r = guarded(move || -> Result<(), String> {
+    let th: usize = std::env::var("VERIF_THREADS").ok().and_then(|v| v.parse().ok()).unwrap_or(2);
+    // run with a deadline: a call that never returns (a worker waiting for a thread that is never scheduled) is an observation too
+    let (tx, rx) = std::sync::mpsc::channel();
+    std::thread::spawn(move || { let r = guarded(move || -> Result<(), String> {
         match sub2.as_str() {
-            "oligo-batch" => { let mut c = composition::oligo::OligoComputer::new(i2, o2, k); c.set_norm(false); c.set_threads(2); c.vectorise() }
-            "oligo-mmap" => { let mut c = composition::oligo::OligoComputer::new(i2, o2, k); c.set_threads(2); c.vectorise() }
-            "cgr" => { let mut c = composition::cgr::CgrComputer::new(i2, o2, 8); c.set_threads(2); c.vectorise() }
-            "oligocgr" => { let mut c = composition::oligocgr::OligoCgrComputer::new(i2, o2, k, 8); c.set_threads(2); c.vectorise() }
-            "cov" => { let mut c = coverage::CovComputer::new(i2, d2, k, 2, 3); c.set_threads(2); c.build_table()?; c.compute_coverages(); Ok(()) }
-            "ctr" => { let mut c = counter::CountComputer::new(i2, d2, k); c.set_threads(2); c.count(); c.merge(true); Ok(()) }
-            "s2m" => { misc::minimisers::seq_to_min(w, k, &i2, &o2, 2); Ok(()) }
-            "m2s" => { misc::minimisers::bin_sequences(w, k, &i2, &o2, 2); Ok(()) }
+            "oligo-batch" => { let mut c = composition::oligo::OligoComputer::new(i2, o2, k); c.set_norm(false); c.set_threads(th); c.vectorise() }
+            "oligo-mmap" => { let mut c = composition::oligo::OligoComputer::new(i2, o2, k); c.set_threads(th); c.vectorise() }
+            "cgr" => { let mut c = composition::cgr::CgrComputer::new(i2, o2, 8); c.set_threads(th); c.vectorise() }
+            "oligocgr" => { let mut c = composition::oligocgr::OligoCgrComputer::new(i2, o2, k, 8); c.set_threads(th); c.vectorise() }
+            "cov" => { let mut c = coverage::CovComputer::new(i2, d2, k, 2, 3); c.set_threads(th); c.build_table()?; c.compute_coverages(); Ok(()) }
+            "ctr" => { let mut c = counter::CountComputer::new(i2, d2, k); c.set_threads(th); c.count(); c.merge(true); Ok(()) }
+            "s2m" => { misc::minimisers::seq_to_min(w, k, &i2, &o2, th); Ok(()) }
+            "m2s" => { misc::minimisers::bin_sequences(w, k, &i2, &o2, th); Ok(()) }
             _ => Ok(()),
         }
-    });
+    }); let _ = tx.send(r); });
+    let r = match rx.recv_timeout(std::time::Duration::from_secs(120)) { Ok(r) => r, Err(_) => Err("the call did not return within 120 s (hang)".to_string()) };
     let why = match r {
         Err(e) => format!("panic: {}", e),
         Ok(Err(e)) => format!("error: {}", e),
@@ -68,6 +72,7 @@ pub fn c16(o: &Opts) -> Outcome {
     let mut cases = 0u64;
     if let Some(inp) = &o.input {
         let recs: Vec<Vec<u8>> = if inp["records"].is_empty() { vec![vec![]] } else { inp["records"].split('|').map(unshow).collect() };
+        if let Some(t) = inp.get("threads") { std::env::set_var("VERIF_THREADS", t); }
         return Outcome { cases: 1, witness: one(&inp["sub"], &recs, inp["empty_file"] == "true", inp["k"].parse().unwrap(), inp["w"].parse().unwrap()) };
     }
     let sets: Vec<(Vec<Vec<u8>>, bool)> = vec![
@@ -80,27 +85,32 @@ pub fn c16(o: &Opts) -> Outcome {
         (vec![b"NACGTACGTACGTN".to_vec(), b"ACGTACN".to_vec()], false),
         (vec![b"ACGTACGTAC".to_vec()], false),
     ];
+    for th in ["2", "1", "16"] {
+    std::env::set_var("VERIF_THREADS", th);
+    let tag = |w: Vec<(String, String)>| -> Vec<(String, String)> { let mut w = w; w.push(("threads".into(), th.to_string())); w };
     for (recs, empty) in &sets {
         for sub in ["oligo-batch", "oligo-mmap", "oligocgr", "cov", "ctr"] {
             for k in [3usize, 7] {
                 if sub == "oligocgr" && k > 5 { continue; }
                 if sub == "ctr" && k < 7 { continue; }
                 cases += 1;
-                if let Some(w) = one(sub, recs, *empty, k, 0) { return Outcome { cases, witness: Some(w) }; }
+                if let Some(w) = one(sub, recs, *empty, k, 0) { return Outcome { cases, witness: Some(tag(w)) }; }
             }
         }
         // cgr refuses non-nucleotide bytes: only clean records
         if recs.iter().all(|r| r.iter().all(|&b| clean(b))) {
             cases += 1;
-            if let Some(w) = one("cgr", recs, *empty, 3, 0) { return Outcome { cases, witness: Some(w) }; }
+            if let Some(w) = one("cgr", recs, *empty, 3, 0) { return Outcome { cases, witness: Some(tag(w)) }; }
         }
         for sub in ["s2m", "m2s"] {
             for (m, w) in [(7usize, 0usize), (7, 10), (3, 0), (3, 5), (10, 31)] {
                 cases += 1;
-                if let Some(wt) = one(sub, recs, *empty, m, w) { return Outcome { cases, witness: Some(wt) }; }
+                if let Some(wt) = one(sub, recs, *empty, m, w) { return Outcome { cases, witness: Some(tag(wt)) }; }
             }
         }
     }
+    }
+    std::env::remove_var("VERIF_THREADS");
     // extreme but legal option values on ordinary and degenerate records
     {
         let recs = vec![b"ACGTACGTACGTTTGACC".to_vec(), b"AC".to_vec(), b"NNNNNNNN".to_vec()];
